@@ -121,6 +121,13 @@ template<class T> void mask_all() {
     for (int n = 0; n <= W; ++n) {
         T nn = T(n); T r = glm::mask(nn); EV("mask", T, 0).arg(nn).res(r).emit();
     }
+    // compile-time constant arguments at the full width: a build may fold these calls, so that an over-wide shift or a promotion slip
+    // shows as a difference between optimisation levels (C15) as well as a wrong value
+    { constexpr T full = T(W); T r = glm::mask(full); EV("mask", T, 0).arg(full).res(r).emit();
+      glm::vec<4, T, glm::defaultp> nv(T(W), T(W - 1), T(1), T(W)); auto rv = glm::mask(nv); EV("mask", T, 4).arg(nv).res(rv).emit();
+      const T z = T(0), o = T(~T(0)); const int first = 0, count = W;
+      T f1 = glm::bitfieldFillOne(z, first, count); EV("bitfieldFillOne", T, 0).arg(z).arg(first).arg(count).res(f1).emit();
+      T f0 = glm::bitfieldFillZero(o, first, count); EV("bitfieldFillZero", T, 0).arg(o).arg(first).arg(count).res(f0).emit(); }
     for (int n = 0; n + 3 <= W - 2; ++n) {
         glm::vec<4, T, glm::defaultp> nv(T(n), T(n + 1), T(n + 2), T(n + 3)); auto r = glm::mask(nv); EV("mask", T, 4).arg(nv).res(r).emit();
         glm::vec<2, T, glm::mediump> n2(T(n + 1), T(n)); auto r2 = glm::mask(n2); EV("mask", T, 2).arg(n2).res(r2).emit();
